@@ -1,14 +1,20 @@
 #!/bin/bash
-# runs tools/verify_seeded.py for every seeded/<id> whose meta.json has no "check" yet; one at a time
+# worker: runs tools/verify_seeded.py for every seeded/<id> whose meta.json has no "check" yet
+# (an id is claimed by creating /tmp/seeded_locks/<id>)
 cd /verif
+mkdir -p /tmp/seeded_locks
 while true; do
   next=""
-  for d in seeded/*/; do id=$(basename $d); if ! grep -q '"check"' $d/meta.json 2>/dev/null; then next=$id; break; fi; done
-  [ -z "$next" ] && { sleep 60; continue; }
+  for d in seeded/*/; do
+    id=$(basename $d)
+    if ! grep -q '"check"' $d/meta.json 2>/dev/null && mkdir /tmp/seeded_locks/$id 2>/dev/null; then next=$id; break; fi
+  done
+  if [ -z "$next" ]; then sleep 60; continue; fi
   python3 tools/verify_seeded.py $next 2>&1 | tail -1 >> /tmp/seeded_queue.log
-  grep -q '"check"' seeded/$next/meta.json || echo "{\"id\":\"$next\",\"error\":\"verify failed\"}" >> /tmp/seeded_queue.log
-  grep -q '"check"' seeded/$next/meta.json || python3 - $next <<'PY'
+  if ! grep -q '"check"' seeded/$next/meta.json; then
+    python3 - $next <<'PY'
 import json,sys
 p=f"/verif/seeded/{sys.argv[1]}/meta.json"; m=json.load(open(p)); m["check"]={"error":"verification script failed","detected":False}; json.dump(m,open(p,"w"),indent=1)
 PY
+  fi
 done
